@@ -17,3 +17,40 @@ Theorem C01_binary_operands_are_arguments : forall c lo hi l r p out p',
     (forall x, In x (p_idents p) -> In x (p_idents p')).
 Proof. exact binary_transform_shape. Qed.
 Print Assumptions C01_binary_operands_are_arguments.
+
+(** ** Semantic statement (core language of Sem.v) *)
+From IastRw Require Import Sem P_Sem.
+
+(** For every world -- every way of answering [+] and calls, and every way the user variables may
+    change after each interaction -- and every source expression built from literals, variables,
+    [+] and calls: the rewritten expression yields the same outcome (value or exception) and the same
+    history of interactions as the source, from any counter value and any temporary store, and it
+    writes only temporaries in the range it allocated. *)
+Theorem C01_core_equivalence :
+  forall (respond : hist -> event -> resp) (ustore : hist -> string -> value) (e : expr),
+    src e ->
+    forall c h t,
+      let e' := fst (rw e c) in
+      let c' := snd (rw e c) in
+      c <= c' /\
+      forall o h', (forall t2 : tenv, eval respond ustore e (h, t2) = (o, (h', t2))) ->
+        exists t', eval respond ustore e' (h, t) = (o, (h', t')) /\ frame c c' t t'.
+Proof. intros respond ustore e Hs. exact (rw_correct respond ustore e Hs). Qed.
+Print Assumptions C01_core_equivalence.
+
+(** The premise is always met: a source expression has an outcome and a history that do not depend on
+    the temporaries (it neither reads nor writes them). *)
+Theorem C01_source_ignores_temporaries :
+  forall (respond : hist -> event -> resp) (ustore : hist -> string -> value) (e : expr),
+    src e -> forall (h : hist) (t : tenv),
+    exists o h', forall t2 : tenv, eval respond ustore e (h, t2) = (o, (h', t2)).
+Proof. intros respond ustore e Hs. exact (src_tenv respond ustore e Hs). Qed.
+Print Assumptions C01_source_ignores_temporaries.
+
+(** Non-vacuity: an expression where both operands are hoisted, and one where the left identifier is kept. *)
+Example C01_core_example :
+  fst (rw (Add (CallE (Var "f") (Var "x")) (Var "y")) 0) =
+    Hoist1 0 (CallE (Var "f") (Var "x")) (Hook (Add (Tmp 0) (Var "y")) [Tmp 0; Var "y"]) /\
+  fst (rw (Add (Var "y") (CallE (Var "f") (Var "x"))) 0) =
+    Hoist2 0 (Var "y") 1 (CallE (Var "f") (Var "x")) (Hook (Add (Tmp 0) (Tmp 1)) [Tmp 0; Tmp 1]).
+Proof. split; reflexivity. Qed.
